@@ -1,3 +1,4 @@
+import Pocket.Lemmas.FromSourceConsts
 import Pocket.Model.Verify
 import Pocket.Lemmas.Total
 import Pocket.Lemmas.CanonInj
@@ -134,5 +135,17 @@ theorem field_tamper_detected (H : Bytes → Bytes) (SV : Bytes → Bytes → By
     obtain ⟨tj, htj⟩ := tagsJson_ok e'.tags t'
     obtain ⟨ec, hec⟩ := IsUtf8_escape e'.content u'
     simp [canon, htj, hec] at hc'
+
+/-! ### tie to the source text: what /repo says now (translated on every run by `lib/srcfacts.py`) is what the model says -/
+
+/-- the escaper's named characters (`json_escape.rs`) are escaped by the model as the source names them -/
+theorem escape_constants_from_source :
+    (∀ q ∈ Src.c_json_escape_BACKSLASH, ∀ c ∈ Src.c_json_escape_BACKSPACE, escapePiece c = some [q, 98]) ∧
+    (∀ q ∈ Src.c_json_escape_BACKSLASH, ∀ c ∈ Src.c_json_escape_TAB, escapePiece c = some [q, 116]) ∧
+    (∀ q ∈ Src.c_json_escape_BACKSLASH, ∀ c ∈ Src.c_json_escape_LINEFEED, escapePiece c = some [q, 110]) ∧
+    (∀ q ∈ Src.c_json_escape_BACKSLASH, ∀ c ∈ Src.c_json_escape_FORMFEED, escapePiece c = some [q, 102]) ∧
+    (∀ q ∈ Src.c_json_escape_BACKSLASH, ∀ c ∈ Src.c_json_escape_CR, escapePiece c = some [q, 114]) ∧
+    (∀ q ∈ Src.c_json_escape_BACKSLASH, ∀ c ∈ Src.c_json_escape_QUOTE, escapePiece c = some [q, c]) ∧
+    (∀ q ∈ Src.c_json_escape_BACKSLASH, escapePiece q = some [q, q]) := Pocket.escape_constants_from_source
 
 end Pocket.C08
